@@ -451,6 +451,30 @@ def scripted_user_kinds(M, rec):
                     pass
 
 
+def index_hashed_kinds(M, rec):
+    """Scripted in every run: element kinds that define `__hash__` only (a per-family index; equality stays identity): different
+    elements may well share a hash value - across families (link 1, origin 1, destination 1) and within one."""
+    from vf import userkinds as UK
+
+    def mk(cls, idx, *a, **k):
+        o = cls(*a, **k)
+        o.idx = idx
+        return o
+
+    for idxs in ((1, 2, 1, 1), (1, 1, 1, 1), (1, 2, 3, 4), (7, 7, 3, 3)):
+        for node_cls in (M.Node, UK.IdxNode):
+            nodes = [mk(node_cls, i_ + 1) if node_cls is UK.IdxNode else M.Node() for i_ in range(3)]
+            l1 = mk(UK.IdxLink, idxs[0], 2, 2, 1.0, 180.0, 33.5, 102.0, 1.867)
+            l2 = mk(UK.IdxLink, idxs[1], 1, 2, 1.0, 180.0, 33.5, 102.0, 1.867)
+            net = M.Network().add_path((nodes[0], l1, nodes[1], l2, nodes[2]), origin=mk(UK.IdxOrigin, idxs[2]), destination=mk(UK.IdxDestination, idxs[3]))
+            rec.count("networks_of_index_hashed_element_kinds")
+            for r in (False, True):
+                try:
+                    net.is_valid(raises=r)
+                except Exception:
+                    pass
+
+
 def large_networks(M, rec):
     """Scripted in every run: corridors of a few hundred links (a ring road, a city model) - valid as built, and with one
     ramp / destination / link object placed twice far down the corridor (condition 1), in both modes (the in-situ monitor
@@ -486,6 +510,7 @@ def run(M, rec, tier, seed, k, n):
     try:
         scripted_user_kinds(M, rec)
         large_networks(M, rec)
+        index_hashed_kinds(M, rec)
         if tier == "quick":
             exhaustive(M, rec, rng, 2, 0, 1)
             shared_objects(M, rec, rng, 150)
